@@ -28,8 +28,8 @@ RULE = ("raw copybook texts: (a) every copybook of the repository (sample/*.cob,
         "computed sizes, every usage); (c) the same texts with one to three small edits (delete / duplicate / swap a line, drop "
         "the final newline, insert / delete / replace a character, change a level number, lower-case or mis-case a reserved word, "
         "join two lines, cut the text, indent or outdent a line, turn a line into a comment or continuation line), valid or not; "
-        "(d) token soups laid out as card images. Non-trivial = the model reads at least one entry; distinct = distinct case lines.")
-TRIVIAL_BRANCHES = [0, 32, 64]
+        "(d) token soups laid out as card images; (e) stream text_nav (Judge/JTextNav.v): the first record of repository, special, printed and edited texts is loaded (SchemaMaker.from_json) and navigated by EBCDIC().nav on a record of drawn bytes along every path its document offers (names, first / last / one refused index of every table), value() read at every atomic leaf; compared with Model/TextLayout.v layout_of_doc + Model/Layout.v navigation + the decoder kind_of_cobol takes from the cobol keyword. Non-trivial = the model reads at least one entry; distinct = distinct case lines.")
+TRIVIAL_BRANCHES = [0, 32, 64, 129]
 ASSUMPTIONS = [
     "the composed model coq/Model/Pipeline.v imports the layer models (RefFormat, Clauses, Structure, Picture, Estruct, JsonType) and adds "
     "the glue between them, estruct's second parse of the cobol keyword text and the emission of every keyword in insertion order; it is "
@@ -373,6 +373,24 @@ def inputs(ctx):
     for i in range(150 * scale):
         yield "soup", text_case(soup(rng))
 
+    # (e) from the text to locations and decoded values (Judge/JTextNav.v): the first record of a text is loaded and navigated
+    # along every path its document has, on a record of drawn bytes; the values of the atomic leaves are read
+    def nav_case(t):
+        return dict(kind=2, text=t, record=[rng.choice(NAV_BYTES) if rng.random() < 0.85 else rng.randrange(256) for _ in range(rng.choice([0, 3, 40, 200, 600]))])
+    for t in repo:
+        yield "text_nav", nav_case(t)
+    for t in SPECIAL:
+        yield "text_nav", nav_case(t)
+    for i in range(120 * scale):
+        t = LC.gen_tree(rng, dup_names=rng.random() < 0.15, allow_odo=rng.random() < 0.3)
+        yield "text_nav", nav_case(LC.print_copybook(t))
+    for i in range(80 * scale):
+        f = G.gen_forest(rng, max_depth=rng.choice([2, 3, 4]), max_children=rng.choice([2, 3, 5]), budget=rng.choice([6, 15, 40]),
+                         p_filler=rng.choice([0.05, 0.3]), p_redefines=rng.choice([0, 0.15, 0.4]))
+        yield "text_nav", nav_case(C7.make_case(rng, f, **C7.spelling(rng))["text"])
+    for i in range(60 * scale):
+        yield "text_nav", nav_case(edits(rng, rng.choice(pool)))
+
 
 def ser(v):
     if isinstance(v, bool) or v is None or isinstance(v, float):
@@ -388,9 +406,143 @@ def ser(v):
     return [9]
 
 
+# bytes a mainframe record is likely to hold: zoned digits, signed zoned digits, packed pairs and sign nibbles, blanks, letters, zero
+NAV_BYTES = (list(range(0xF0, 0xFA)) * 3 + list(range(0xC0, 0xCA)) + list(range(0xD0, 0xDA)) + [0x0C, 0x1C, 0x2D, 0x3F, 0x9C, 0x5D, 0x12, 0x34, 0x56, 0x78, 0x90]
+             + [0x40, 0x40, 0xC1, 0xC2, 0xE9, 0x81, 0x00, 0x00, 0x01, 0x7F, 0xFF, 0x25]
+             + [0x1A, 0x2B, 0x0B, 0x9B, 0x4D, 0x0D, 0x5E, 0x6F, 0xB3, 0xA7, 0xE1])
+
+
+def nav_schema(d, unpacker):
+    """the emitted document as the loader reads it (keys and anchors as written), widths from the unpacker"""
+    from stingray.schema_instance import AtomicSchema
+    a = [1, S(d["$anchor"])] if "$anchor" in d else [0]
+    if d.get("oneOf"):
+        return [4, a, [nav_schema(x, unpacker) for x in d["oneOf"]]]
+    if d.get("$ref"):
+        return [5, S(d["$ref"].lstrip("#"))]
+    t = d.get("type")
+    if t == "array":
+        if "maxItemsDependsOn" in d:
+            return [2, a, S(d["maxItemsDependsOn"]["$ref"].lstrip("#")), nav_schema(d["items"], unpacker)]
+        return [1, a, d["maxItems"], nav_schema(d["items"], unpacker)]
+    if t == "object":
+        return [3, a, [[S(k), nav_schema(v, unpacker)] for k, v in d["properties"].items()]]
+    return [0, a, unpacker.calcsize(AtomicSchema(d))]
+
+
+def nav_paths(js, limit=90):
+    """every path the document offers: property names (a placeholder leads to the item it refers to), the first, last and one
+    refused index of every table; (path, is an atomic leaf)"""
+    anchors = {}
+
+    def collect(d):
+        if isinstance(d, dict):
+            if isinstance(d.get("$anchor"), str):
+                anchors[d["$anchor"]] = d
+            for v in d.values():
+                collect(v)
+        elif isinstance(d, list):
+            for v in d:
+                collect(v)
+    collect(js)
+    out = []
+
+    def go(d, path, depth):
+        if len(out) >= limit or depth > 14 or not isinstance(d, dict):
+            return
+        if d.get("$ref"):
+            t = anchors.get(str(d["$ref"]).lstrip("#"))
+            if t is not None:
+                go(t, path, depth + 1)
+            return
+        if d.get("oneOf"):
+            return
+        t = d.get("type")
+        if t == "array":
+            n = d.get("maxItems")
+            items = d.get("items")
+            if isinstance(n, int) and isinstance(items, dict):
+                for i in sorted({0, n - 1, n}):
+                    if i < 0:
+                        continue
+                    out.append((path + [[1, i]], 0))
+                    if i < n:
+                        go(items, path + [[1, i]], depth + 1)
+            return
+        if t == "object":
+            for k, v in (d.get("properties") or {}).items():
+                if k.startswith("REDEFINES-") or not isinstance(v, dict):
+                    continue
+                tgt = anchors.get(str(v["$ref"]).lstrip("#"), v) if v.get("$ref") else v
+                leaf = 1 if (isinstance(tgt, dict) and not tgt.get("oneOf") and tgt.get("type") not in ("array", "object")) else 0
+                out.append((path + [[0, S(k)]], leaf))
+                go(v, path + [[0, S(k)]], depth + 1)
+    go(js, [], 0)
+    return out[:limit]
+
+
+def observe_nav(inp):
+    from lib import exn_code
+    from codec_common import canon
+    from stingray import cobol_parser as cp
+    from stingray.schema_instance import SchemaMaker, EBCDIC, BytesInstance
+    text, record = inp["text"], inp["record"]
+    head = [2, S(text), record]
+    try:
+        docs = list(cp.schema_iter(io.StringIO(text)))
+        js = docs[0]
+        unp = EBCDIC()
+        schema_obs = [0, nav_schema(js, unp)]
+    except BaseException as ex:
+        if isinstance(ex, (KeyboardInterrupt, SystemExit, MemoryError)):
+            raise
+        return head + [[1, exn_code(ex)], [1, exn_code(ex)], []]
+    try:
+        schema = SchemaMaker.from_json(js)
+        nav0 = unp.nav(schema, BytesInstance(bytes(record)))
+        top = [0, nav0.location.end]
+    except BaseException as ex:
+        if isinstance(ex, (KeyboardInterrupt, SystemExit, MemoryError)):
+            raise
+        return head + [schema_obs, [1, exn_code(ex)], []]
+    navs, errs, out = {(): nav0}, {}, []
+    paths = nav_paths(js)
+    for p, leaf in paths:
+        tp = tuple((k, tuple(x) if isinstance(x, list) else x) for k, x in p)
+        for j in range(1, len(tp) + 1):
+            pre = tp[:j]
+            if pre in navs or pre in errs:
+                continue
+            if pre[:-1] in errs:
+                errs[pre] = errs[pre[:-1]]
+                continue
+            kind, x = pre[-1]
+            try:
+                navs[pre] = navs[pre[:-1]].index(x) if kind == 1 else navs[pre[:-1]].name("".join(map(chr, x)))
+            except BaseException as ex:
+                if isinstance(ex, (KeyboardInterrupt, SystemExit, MemoryError)):
+                    raise
+                errs[pre] = exn_code(ex)
+        if tp in errs:
+            out.append([p, leaf, [1, errs[tp]]])
+            continue
+        nav = navs[tp]
+        try:
+            start, end = nav.location.start, nav.location.end
+        except BaseException as ex:
+            if isinstance(ex, (KeyboardInterrupt, SystemExit, MemoryError)):
+                raise
+            out.append([p, leaf, [1, exn_code(ex)]])
+            continue
+        out.append([p, leaf, [0, start, end, observe_call(nav.value, canon) if leaf else [9]]])
+    return head + [schema_obs, top, out]
+
+
 def observe(ctx, inp):
     from stingray import cobol_parser as cp
     text = inp["text"]
+    if inp["kind"] == 2:
+        return observe_nav(inp)
     obs = observe_call(lambda: list(cp.schema_iter(io.StringIO(text))), lambda docs: [ser(d) for d in docs])
     if inp["kind"] == 1:
         intended = [[S(e[0]), C7.opt(e[1]), C7.opt(e[2]), C7.opt(e[3]), e[4], e[5], S(e[6]), e[7]] for e in inp["entries"]]
